@@ -246,10 +246,127 @@ def r02d(ctx, run):
             run.finding(owner, "raw-store:%s" % nm, c.file, c.ln, "raw %s in %s: stores must go through MemoryLoc (or the function must be reviewed and listed)" % (nm, owner))
 
 
+def place_field(ch, field):
+    for n in walk_chain(ch):
+        if n.get("kind") == "place" and any(p == "." + field for p in n["proj"]):
+            return True
+    return False
+
+
+def r02e(ctx, run):
+    """distinct variables get distinct storage: a binding is given the address of a slot created for it"""
+    F = ctx.facts
+    n_local = 0
+    for fn in F.fns:
+        if fn.crate != "codegen":
+            continue
+        for c in fn.calls():
+            if short(c.callee) != "insert" or len(c.args) < 3:
+                continue
+            if not place_field(fn.chain_operand(c.args[0], depth=5), "locals"):
+                continue
+            n_local += 1
+            val = fn.chain_operand(c.args[2], depth=10)
+            calls = [short(x["callee"]) for x in chain_calls(val)]
+            fresh = "create_sized_stack_slot" in calls
+            owner = strip_generics(fn.parent or fn.path)
+            run.check(fresh, c.site(), "local variable bound to the address of a stack slot created for it (%s)" % show_chain(val, 3)[:90], owner, "local-binding-fresh-slot", c.file, c.ln,
+                      "a local definition is bound to an address that does not come from a stack slot created for it (%s): the new variable shares storage with another value, "
+                      "so writing either one changes the other" % show_chain(val, 4)[:160])
+    if n_local == 0:
+        raise LookupError("no insertion into FunctionCompiler::locals found")
+    # parameters: by-value aggregates (PassMode::Cast / Indirect) are copied into a slot of the callee; only Direct scalars use the block parameter itself
+    bf = [f for f in F.fns if strip_generics(f.path).endswith("FnAbi::build_fn")]
+    if len(bf) != 1:
+        raise LookupError("FnAbi::build_fn")
+    fn = bf[0]
+    dv = [c for c in fn.calls() if short(c.callee) == "def_var"]
+    ins = [c for c in fn.calls() if short(c.callee) == "insert" and place_field(fn.chain_operand(c.args[0], depth=5), "params")]
+    if len(dv) != 1 or len(ins) != 1:
+        raise LookupError("def_var / params.insert in build_fn: %d/%d" % (len(dv), len(ins)))
+    val = fn.chain_operand(dv[0].args[2], depth=10)
+    phis = [n for n in walk_chain(val) if n.get("kind") == "phi"]
+    if not phis:
+        raise LookupError("parameter value in build_fn is not a merge of the PassMode arms")
+    opts = phis[0]["opts"]
+    kinds = []
+    for o in opts:
+        first = o["args"][0] if o.get("kind") == "agg" and o.get("args") else o
+        calls = [short(x["callee"]) for x in chain_calls(first)]
+        as_direct = any("as:Direct" in str(n.get("proj", "")) or n.get("variant") == "Direct" for n in walk_chain(o))
+        kinds.append(("slot" if "create_sized_stack_slot" in calls else "block-param" if "block_params" in calls else "other", as_direct))
+    modes = ctx.facts.adt("PassMode")
+    variants = [v["n"] for v in modes["variants"]] if modes else []
+    n_slot = len([k for k in kinds if k[0] == "slot"])
+    n_bp = len([k for k in kinds if k[0] == "block-param"])
+    good = len(opts) == len(variants) == 3 and n_slot == 2 and n_bp == 1 and kinds[[k[0] for k in kinds].index("block-param")][1]
+    run.check(good, dv[0].site(), "parameters: PassMode::{Cast,Indirect} aggregates are copied into a slot of the callee, only PassMode::Direct uses the incoming value (%s)" % kinds,
+              "codegen::convert::abi::FnAbi::build_fn", "param-binding-fresh-slot", dv[0].file, dv[0].ln,
+              "a by-value aggregate parameter is bound to the caller's memory instead of a copy in the callee's frame (arms: %s over PassMode %s): a write through another pointer to the "
+              "argument becomes visible through the parameter" % (kinds, variants))
+
+
+def r02f(ctx, run):
+    """the value handed to MemoryLoc::write_all has the type whose size write_all uses"""
+    F = ctx.facts
+    n = 0
+    for fn in F.fns:
+        if fn.crate != "codegen":
+            continue
+        for c in fn.calls():
+            if short(c.callee) != "write_all" or "MemoryLoc" not in c.callee:
+                continue
+            n += 1
+            owner = strip_generics(fn.parent or fn.path)
+            val = fn.chain_operand(c.args[1], depth=8)
+            ty = fn.chain_operand(c.args[2], depth=8)
+            ty_s = show_chain(ty, 6)
+            top = val
+            while top.get("kind") in ("agg",) and top.get("args"):   # Some{..}
+                top = top["args"][0]
+            while top.get("kind") == "place" and top.get("base"):
+                top = top["base"]
+            guards = [short(x.callee) for b in fn.controlling_switches(c.bb) for x in fn.calls_in([bb for bb in range(len(fn.blocks)) if fn.dominates(bb, b)]) if short(x.callee) == "is_functionally_equivalent_to"]
+            verdict, why = None, ""
+            if top.get("kind") == "call":
+                nm = short(top["callee"])
+                if nm in ("cast", "cast_into_memory", "compile_and_cast", "compile_and_cast_with_args"):
+                    to = top["args"][-2] if nm == "cast_into_memory" else top["args"][-1]
+                    verdict = show_chain(to, 6) == ty_s
+                    why = "value = %s(.., to = %s), stored as %s" % (nm, show_chain(to, 4)[:60], ty_s[:60])
+                elif nm == "cast_num":
+                    verdict = "cast_to" in show_chain(top["args"][-1], 8) and "cast_to" in ty_s
+                    why = "value = cast_num(.., to = cast_to's number type), stored as cast_to"
+                elif nm == "compile_expr":
+                    verdict = bool(guards)
+                    why = "value = compile_expr(e), stored as ty on the path where tys[e] is functionally equivalent to ty"
+                else:
+                    verdict = False
+                    why = "value = %s(..) is computed in that operation's own type, but it is stored as %s without a cast to it" % (nm, ty_s[:80])
+            elif top.get("kind") == "param":
+                # cast_into_memory's own contract: val has type cast_from
+                if "sub_ty" in ty_s:
+                    asserted = any(x.exp and any("assert" in e for e in x.exp) and short(x.callee) == "eq" and fn.dominates(x.bb, c.bb) for x in fn.calls())
+                    verdict = asserted
+                    why = "variant -> enum: the payload type written is asserted equal to the variant's payload type"
+                else:
+                    verdict = bool(guards)
+                    why = "value of type cast_from stored as cast_to on the path where the two are functionally equivalent"
+            else:
+                verdict = False
+                why = "unrecognised producer of the stored value (%s)" % show_chain(val, 3)[:80]
+            run.check(verdict, c.site(), "write_all in %s: %s" % (short(owner), why), owner, "write_all-type:%s" % (short(top.get("callee", top.get("name", "?")))), c.file, c.ln,
+                      "MemoryLoc::write_all stores a scalar with the width of the VALUE but is told type %s: %s — a wider value overwrites the neighbouring bytes" % (ty_s[:60], why))
+    if n < 5:
+        raise LookupError("write_all call sites: %d" % n)
+
+
 def rules(ctx):
     return [
         Rule("R02.a", "tag stores/loads (offset derived from discriminant_offset) move exactly one byte", 9, r02a),
         Rule("R02.b", "copy/set loops store exactly as many bytes as their offset advances", 4, r02b),
         Rule("R02.c", "aggregate copies are bounded by the destination type's size(), not stride()", 6, r02c),
         Rule("R02.d", "raw Cranelift stores only in MemoryLoc, the ABI module and reviewed scalar-slot sites", 25, r02d),
+        Rule("R02.e", "every local definition and every by-value aggregate parameter is bound to a stack slot created for it (no shared storage)", 2, r02e),
+        Rule("R02.f", "every MemoryLoc::write_all receives a value already converted to the type it is told to store", 5, r02f),
     ]
